@@ -1,0 +1,1 @@
+//! Hooks into `replication_fetcher` (child module: sees its private items).
